@@ -97,6 +97,11 @@ class AsymmetricStepSolver(ScaledStepSolver):
             format="csr",
         )
 
+        # The active rows are overwritten in place, which requires their
+        # diagonal entries to be stored: an entry H_jj + lamb that cancels
+        # is dropped from the sum above
+        deriv.setdiag(deriv.diagonal())
+
         self.overwrite_active_rows(deriv)
 
         assert deriv.dtype == self.params.dtype
